@@ -46,7 +46,11 @@ pub type Log = [GfElement; GF_ORDER];
 ///
 /// [`Avx2`]: crate::engine::Avx2
 /// [`Ssse3`]: crate::engine::Ssse3
+#[cfg(not(feature = "verif-hooks"))]
 pub type Mul128 = [Multiply128lutT; GF_ORDER];
+/// Sparse stand-in for the table (verification builds only).
+#[cfg(feature = "verif-hooks")]
+pub type Mul128 = crate::verif_hooks::SparseTable<Multiply128lutT>;
 
 /// Elements of the Mul128 table
 #[derive(Clone, Debug)]
@@ -66,7 +70,11 @@ pub type LogWalsh = [GfElement; GF_ORDER];
 /// Used by [`NoSimd`] engine for multiplications.
 ///
 /// [`NoSimd`]: crate::engine::NoSimd
+#[cfg(not(feature = "verif-hooks"))]
 pub type Mul16 = [[[GfElement; 16]; 4]; GF_ORDER];
+/// Sparse stand-in for the table (verification builds only).
+#[cfg(feature = "verif-hooks")]
+pub type Mul16 = crate::verif_hooks::SparseTable<[[GfElement; 16]; 4]>;
 
 /// Used by all [`Engine`]:s for FFT and IFFT.
 ///
@@ -120,6 +128,11 @@ pub fn mul(x: GfElement, log_m: GfElement, exp: &Exp, log: &Log) -> GfElement {
 
 #[allow(clippy::needless_range_loop)]
 fn initialize_exp_log() -> ExpLog {
+    #[cfg(feature = "verif-hooks")]
+    if let Some(provider) = crate::verif_hooks::table_providers().exp_log {
+        return provider();
+    }
+
     let mut exp = Box::new([0; GF_ORDER]);
     let mut log = Box::new([0; GF_ORDER]);
 
@@ -159,6 +172,11 @@ fn initialize_exp_log() -> ExpLog {
 }
 
 fn initialize_log_walsh() -> Box<LogWalsh> {
+    #[cfg(feature = "verif-hooks")]
+    if let Some(provider) = crate::verif_hooks::table_providers().log_walsh {
+        return provider();
+    }
+
     let log = *EXP_LOG.log;
 
     let mut log_walsh: Box<LogWalsh> = Box::new([0; GF_ORDER]);
@@ -170,6 +188,7 @@ fn initialize_log_walsh() -> Box<LogWalsh> {
     log_walsh
 }
 
+#[cfg(not(feature = "verif-hooks"))]
 fn initialize_mul16() -> Box<Mul16> {
     let exp = &*EXP_LOG.exp;
     let log = &*EXP_LOG.log;
@@ -188,6 +207,7 @@ fn initialize_mul16() -> Box<Mul16> {
     mul16.into_boxed_slice().try_into().unwrap()
 }
 
+#[cfg(not(feature = "verif-hooks"))]
 fn initialize_mul128() -> Box<Mul128> {
     // Based on:
     // https://github.com/catid/leopard/blob/22ddc7804998d31c8f1a2617ee720e063b1fa6cd/LeopardFF16.cpp#L375
@@ -221,6 +241,11 @@ fn initialize_mul128() -> Box<Mul128> {
 
 #[allow(clippy::needless_range_loop)]
 fn initialize_skew() -> Box<Skew> {
+    #[cfg(feature = "verif-hooks")]
+    if let Some(provider) = crate::verif_hooks::table_providers().skew {
+        return provider();
+    }
+
     let exp = &*EXP_LOG.exp;
     let log = &*EXP_LOG.log;
 
@@ -259,4 +284,65 @@ fn initialize_skew() -> Box<Skew> {
     }
 
     skew
+}
+
+// ======================================================================
+// FUNCTIONS - PRIVATE - verification builds: sparse multiplication tables
+
+// With a provider installed the table is whatever the harness supplies;
+// without one all 65536 rows are computed as above and kept in dense mode.
+#[cfg(feature = "verif-hooks")]
+fn initialize_mul16() -> Box<Mul16> {
+    use crate::verif_hooks::{SparseMode, SparseTable};
+
+    if let Some(provider) = crate::verif_hooks::table_providers().mul16 {
+        return provider();
+    }
+
+    let exp = &*EXP_LOG.exp;
+    let log = &*EXP_LOG.log;
+    let mut rows = Vec::with_capacity(GF_ORDER);
+    for log_m in 0..=GF_MODULUS {
+        let mut lut = [[0; 16]; 4];
+        for i in 0..16 {
+            lut[0][i] = mul(i as GfElement, log_m, exp, log);
+            lut[1][i] = mul((i << 4) as GfElement, log_m, exp, log);
+            lut[2][i] = mul((i << 8) as GfElement, log_m, exp, log);
+            lut[3][i] = mul((i << 12) as GfElement, log_m, exp, log);
+        }
+        rows.push((log_m, lut));
+    }
+    Box::new(SparseTable::new(rows.leak(), SparseMode::Dense))
+}
+
+#[cfg(feature = "verif-hooks")]
+fn initialize_mul128() -> Box<Mul128> {
+    use crate::verif_hooks::{SparseMode, SparseTable};
+
+    if let Some(provider) = crate::verif_hooks::table_providers().mul128 {
+        return provider();
+    }
+
+    let exp = &*EXP_LOG.exp;
+    let log = &*EXP_LOG.log;
+    let mut rows = Vec::with_capacity(GF_ORDER);
+    for log_m in 0..=GF_MODULUS {
+        let mut lut = Multiply128lutT {
+            lo: [0; 4],
+            hi: [0; 4],
+        };
+        for i in 0..=3 {
+            let mut prod_lo = [0u8; 16];
+            let mut prod_hi = [0u8; 16];
+            for x in 0..16 {
+                let prod = mul((x << (i * 4)) as GfElement, log_m, exp, log);
+                prod_lo[x] = prod as u8;
+                prod_hi[x] = (prod >> 8) as u8;
+            }
+            lut.lo[i] = u128::from_le_bytes(prod_lo);
+            lut.hi[i] = u128::from_le_bytes(prod_hi);
+        }
+        rows.push((log_m, lut));
+    }
+    Box::new(SparseTable::new(rows.leak(), SparseMode::Dense))
 }
